@@ -54,14 +54,19 @@ Definition validity_kinds (rules : list string) : list string := filter is_valid
 
 Definition decode (slot : N) (start ttl : option N) : ctx := mk_ctx slot (of_opt start) (of_opt ttl).
 
-(* correspondence: (era, slot, start, ttl, observed "no validity rejection") *)
-Definition case := (string * N * option N * option N * bool)%type.
+(* correspondence: (era, slot, start, ttl, observed "no validity rejection" when the
+   validity rule is called directly, the same observed through common.VerifyTransaction
+   over the whole era list with the other rules' verdicts discarded) *)
+Definition case := (string * N * option N * option N * bool * bool)%type.
 Definition check_case (x : case) : bool :=
   match x with
-  | (era, slot, start, ttl, accepted) =>
+  | (era, slot, start, ttl, accepted_direct, accepted_verify) =>
     match rules_of era with
     | None => false
-    | Some rs => Bool.eqb (validity_accept rs (decode slot start ttl)) accepted
+    | Some rs =>
+      let c := decode slot start ttl in
+      Bool.eqb (forallb (fun r => rule_sem (fun _ _ => true) r c) (validity_kinds rs)) accepted_direct &&
+      Bool.eqb (validity_accept rs c) accepted_verify
     end
   end.
 Definition mismatches : list case -> list nat := failing check_case.
